@@ -70,6 +70,7 @@ end
 
 /-- The analysis tree has at least as many sub-analyses as the block has nested blocks, everywhere. -/
 def ShapeOk (b : Block w) (anal : DAnal) : Prop := shapeOkL anal b.insts = true
+instance (b : Block w) (anal : DAnal) : Decidable (ShapeOk b anal) := by unfold ShapeOk; infer_instance
 
 /-- The last `n` sub-analyses: the ones the pass uses for a block with `n` nested blocks. -/
 def usedSubs (A : DAnal) (n : Nat) : List DAnal := A.subs.drop (A.subs.length - n)
@@ -110,6 +111,7 @@ def noDupL : List (Instr w) → Bool
 end
 
 def NoDupTargets (b : Block w) : Prop := noDupL b.insts = true
+instance (b : Block w) : Decidable (NoDupTargets b) := by unfold NoDupTargets; infer_instance
 
 /-! ### Reads and writes of one machine step; reachable configurations -/
 
@@ -164,33 +166,44 @@ def unexposedN (lim : Bool) (d : Nat) (a : Int) : Nat → Cfg w → Bool
 
 /-! ### Meaning of the analysis facts -/
 
-/-- What the pass needs of the facts in `anal` for the run of `b` under `env` (mode `lim`, budget `bud`).
+/-- `has_shift = false`: syntactically no pointer movement (block shift `0`, recursively). -/
+def ShiftFact (b : Block w) (anal : DAnal) : Prop := shiftOkL anal b.insts = true
+instance (b : Block w) (anal : DAnal) : Decidable (ShiftFact b anal) := by unfold ShiftFact; infer_instance
+
+/-- `at_least_once`: whenever the run reaches the loop / if, its condition cell is non-zero.
 `A0` is the analysis node of the block the machine is in (`analOf`), `A1` that of the nested block at the head
 of the current instruction list. -/
-structure AnalSoundAt (lim : Bool) (bud : Nat) (b : Block w) (anal : DAnal) (env : Env) : Prop where
-  /-- `has_shift = false`: syntactically no pointer movement (block shift `0`, recursively). -/
-  shift : shiftOkL anal b.insts = true
-  /-- `at_least_once`: whenever the run reaches the loop / if, its condition cell is non-zero. -/
-  atLeast : ∀ (c : Cfg w), Reach lim bud b env c →
+def AtLeastFact (lim : Bool) (bud : Nat) (b : Block w) (anal : DAnal) (env : Env) : Prop :=
+  ∀ (c : Cfg w), Reach lim bud b env c →
     ∀ (i : Instr w) (rest : List (Instr w)) (cond shift : Int) (body : List (Instr w)) (A0 A1 : DAnal),
       c.cur = i :: rest → blockParts i = some (cond, shift, body) →
       analOf anal c.conts = some A0 → subAt A0 (nblocks rest + 1) = some A1 →
       A1.atLeastOnce = true → c.st.rd cond ≠ 0#w
-  /-- `at_most_once` (loops; an `if` never repeats): whenever an iteration ends, the condition is zero. -/
-  atMost : ∀ (c : Cfg w), Reach lim bud b env c →
+
+/-- `at_most_once` (loops; an `if` never repeats): whenever an iteration ends, the condition is zero. -/
+def AtMostFact (lim : Bool) (bud : Nat) (b : Block w) (anal : DAnal) (env : Env) : Prop :=
+  ∀ (c : Cfg w), Reach lim bud b env c →
     ∀ (cond shift : Int) (body rest : List (Instr w)) (ks : List (Cont w)) (A0 : DAnal),
       c.cur = [] → c.conts = .loopEnd cond shift body rest :: ks →
       analOf anal c.conts = some A0 → A0.atMostOnce = true → (c.st.mov shift).rd cond = 0#w
-  /-- `reads` (only used together with `has_shift = false`, and only for looking through the BACK EDGE of a
-  loop): whenever an iteration ends and another one starts, a cell not in `reads` is not read in that new
-  iteration before it is written. -/
-  reads : ∀ (c : Cfg w), Reach lim bud b env c →
-    ∀ (cond shift : Int) (body rest : List (Instr w)) (ks : List (Cont w)) (A0 : DAnal),
+
+/-- `reads` (only used together with `has_shift = false`, and only for looking through the BACK EDGE of a
+loop): whenever an iteration ends and another one starts (`c1`: the configuration at the start of the new
+iteration), a cell not in `reads` is not read in that new iteration before it is written. -/
+def ReadsFact (lim : Bool) (bud : Nat) (b : Block w) (anal : DAnal) (env : Env) : Prop :=
+  ∀ (c : Cfg w), Reach lim bud b env c →
+    ∀ (cond shift : Int) (body rest : List (Instr w)) (ks : List (Cont w)) (A0 : DAnal) (c1 : Cfg w),
       c.cur = [] → c.conts = .loopEnd cond shift body rest :: ks →
       analOf anal c.conts = some A0 → A0.hasShift = false → (c.st.mov shift).rd cond ≠ 0#w →
-      ∀ (v : Int) (n : Nat), v ∉ A0.reads →
-        unexposedN lim c.conts.length ((c.st.mov shift).ptr + v) n
-          { cur := body, conts := c.conts, budget := c.budget, st := c.st.mov shift } = true
+      step lim c = .next c1 →
+      ∀ (v : Int) (n : Nat), v ∉ A0.reads → unexposedN lim c.conts.length (c1.st.ptr + v) n c1 = true
+
+/-- What the pass needs of the facts in `anal` for the run of `b` under `env` (mode `lim`, budget `bud`). -/
+structure AnalSoundAt (lim : Bool) (bud : Nat) (b : Block w) (anal : DAnal) (env : Env) : Prop where
+  shift : ShiftFact b anal
+  atLeast : AtLeastFact lim bud b anal env
+  atMost : AtMostFact lim bud b anal env
+  reads : ReadsFact lim bud b anal env
 
 /-- Unlimited mode (the mode of the optimiser's correctness property). -/
 def AnalSound (b : Block w) (anal : DAnal) (env : Env) : Prop := AnalSoundAt false 0 b anal env
